@@ -32,7 +32,7 @@ def qr_cases(draw, tier):
     elif shape_kind == "square":
         n = m
     kind = draw(st.sampled_from(["generic", "generic", "int", "pure_imag", "zero_real_diag", "product_rank", "zero_cols",
-                                 "dup_cols", "spectrum", "zero", "scaled"]))
+                                 "dup_cols", "spectrum", "zero", "scaled", "scaled", "nearly_real", "unit_entries"]))
     if kind in ("generic", "int", "pure_imag"):
         A = draw(gen.qarray(m, n, kind))[0]
     elif kind == "zero_real_diag":
@@ -63,8 +63,19 @@ def qr_cases(draw, tier):
         A = draw(gen.matrix_with_svals(m, n, s))
     elif kind == "zero":
         A = np.zeros((m, n, 4))
+    elif kind == "nearly_real":
+        A = draw(gen.qarray(m, n, "generic"))[0].copy()
+        A[..., 1:] *= draw(st.sampled_from([1e-6, 1e-9, 1e-12]))          # tiny but non-zero imaginary parts
+    elif kind == "unit_entries":
+        # entries from {0, +-1, +-i, +-j, +-k}: pivots / norms of modulus exactly 1, many exact ties
+        idx = draw(hnp.arrays(np.int64, (m, n), elements=st.integers(0, 8), fill=st.nothing()))
+        A = np.zeros((m, n, 4))
+        for i in range(m):
+            for j in range(n):
+                if idx[i, j] < 8:
+                    A[i, j] = gen.BASIS_UNITS[int(idx[i, j])]
     else:
-        A = draw(gen.qarray(m, n, "generic"))[0] * 10.0 ** draw(st.sampled_from([-8, -4, 4, 8]))
+        A = draw(gen.qarray(m, n, "generic"))[0] * 10.0 ** draw(st.sampled_from([-16, -12, -9, -4, 4, 9, 12]))
     return {"A": np.ascontiguousarray(A), "kind": kind}
 
 
